@@ -211,7 +211,7 @@ chk("C12",
 
 chk("C13",
     level="exploration",
-    technique="two monitors over real Connection executions in synctest bubbles: (1) exact per-event callback multiset against a model registry at quiescent points of step-fed streams; (2) porcupine v1.3.0 linearizability check of recorded Sub/Unsub/Dispatch histories (registry as sequential model) plus interval rules (never twice, never after the remover returned, must/must-not by the Read stamps bracketing each dispatch); race detector on",
+    technique="two monitors over real Connection executions in synctest bubbles: (1) exact per-event callback multiset against a model registry at quiescent points of step-fed streams; (2) porcupine v1.3.0 linearizability check of recorded histories, one per callback (subscribe, unsubscribe calls, and for every matching event whether it was delivered, against a one-bit sequential model) plus interval rules (never twice, never after the remover returned, must/must-not by the Read stamps bracketing each dispatch); race detector on",
     level_text="Sequential scripts of 5-30 steps over {SubscribeEvent(t), SubscribeMessages, SubscribeToAll, call any remover incl. stale and repeated ones, emit event of type t in {'' , t1, t2}}, a third of the steps before Connect and the rest while connected: after every emitted event the bubble is driven to quiescence and the set of (callback, event) invocations must equal the model's. Concurrent scripts: 1-4 goroutines subscribe/unsubscribe while a feeder pushes events; the history with logical-clock intervals is checked with porcupine and with direct rules, under GOMAXPROCS 1/2/4/16 with the race detector. In-dispatch scenarios (real goroutines): 2-4 goroutines call one remover while the dispatch that will still reach its callback is in progress (no call may return before the last invocation), and a callback that panics once (afterwards removers and Subscribe calls return and the next Connect dispatches to exactly the callbacks subscribed then). A 70 000-cycle subscription life next to nine long-lived callbacks.",
     level_note=CLIENT_NOTE + " The dispatch interval of an event is bounded from outside by the Read that returned its bytes and the next Read call.",
     rule="cases = seeded scripts (sequential and concurrent); non-trivial = at least one event emitted and one callback registered; distinct = distinct script",
